@@ -179,10 +179,18 @@ FUNCS = ['classify_derived_member', 'classify_explicit_type', 'classify_from_sco
 
 
 def generate(tier):
+    import re
     from pathlib import Path
     text = Path(__file__).read_text().split('\ndef generate(tier):')[0]
     if tier == 'quick':
         text = text.replace('pre: 0 <= stale < 3 and 0 <= which < 5', 'pre: 0 <= stale < 3 and 0 <= which < 5 and not inparent and which != 1')
         text = text.replace('pre: 0 <= t < 7 and 0 <= nm < 3 and 0 <= nm2 < 3 and NAMES[nm].lower() == NAMES[nm2].lower()',
                             'pre: 0 <= t < 7 and 0 <= nm < 2 and 0 <= nm2 < 2')
-    return text, FUNCS
+    # type_update_shared has 576 paths: one condition (= one CrossHair process) per first type kind
+    funcs = [f for f in FUNCS if f != 'type_update_shared']
+    src = re.search(r'(?ms)^def type_update_shared\(.*?(?=^def )', text).group(0)
+    for t in range(1, 5):
+        name = f'type_update_shared_t{t}'
+        text += chr(10) + src.replace('def type_update_shared(', f'def {name}(').replace('pre: 1 <= t < 5 and', f'pre: t == {t} and')
+        funcs.append(name)
+    return text, funcs
